@@ -128,6 +128,15 @@ func (h *c17H) corruptions() []c17Corr {
 		{2, "1.0", "nonnumeric"}, {2, "18446744073709551616", "range"}, {2, "007", "accepted-form"}, {2, "4294967295", "valid-other"}, {2, "0", "valid-other"},
 		{3, "abc", "nonnumeric"}, {3, "~", "empty"}, {3, "4294967296", "range"}, {3, "-1", "range"}, {3, "+5", "nonnumeric"},
 		{3, "1d00ffff", "nonnumeric"}, {3, "18446744073709551616", "range"}, {3, "00486604799", "accepted-form"}, {3, "4294967295", "valid-other"}, {3, "0", "valid-other"},
+		// integer-literal syntax of other bases / digit separators / exponents: not decimal numerals, malformed
+		{0, "0x1", "literal-syntax"}, {0, "1_0", "literal-syntax"}, {0, "1e3", "literal-syntax"}, {0, "0b1", "literal-syntax"}, {0, "0o7", "literal-syntax"},
+		{0, "-0x1", "literal-syntax"}, {0, "017", "valid-other"},
+		{2, "0x17", "literal-syntax"}, {2, "0b1", "literal-syntax"}, {2, "0o17", "literal-syntax"}, {2, "4_294_967_295", "literal-syntax"},
+		{2, "1_0", "literal-syntax"}, {2, "1e3", "literal-syntax"}, {2, "0X1F", "literal-syntax"}, {2, "017", "valid-other"}, {2, "^1", "nonnumeric"}, {2, "1^", "nonnumeric"},
+		{3, "0x1d00ffff", "literal-syntax"}, {3, "0b1", "literal-syntax"}, {3, "0o17", "literal-syntax"}, {3, "4_294_967_295", "literal-syntax"},
+		{3, "1_0", "literal-syntax"}, {3, "1e3", "literal-syntax"}, {3, "+1", "nonnumeric"}, {3, "017", "valid-other"}, {3, "^1", "nonnumeric"}, {3, "1^", "nonnumeric"},
+		{4, "0x5", "literal-syntax"}, {4, "0b1", "literal-syntax"}, {4, "1_0", "literal-syntax"}, {4, "0o17", "literal-syntax"}, {4, "017", "valid-other"},
+		{4, "^1", "nonnumeric"}, {4, "1^", "nonnumeric"},
 		{4, "abc", "nonnumeric"}, {4, "~", "empty"}, {4, "9223372036854775808", "range"}, {4, "-9223372036854775809", "range"},
 		{4, "1e9", "nonnumeric"}, {4, "2009-01-03", "nonnumeric"}, {4, "1231006505.0", "nonnumeric"}, {4, "+1231006505", "accepted-form"},
 		{4, "4294967295", "valid-other"}, {4, "0", "valid-other"}, {4, "-1", "valid-other"}, {4, "4294967296", "valid-other"},
@@ -357,6 +366,41 @@ func (h *c17H) generate() error {
 		}
 	}
 
+	// 1b. the zone of the processes is a dimension of the tie: the store is written, exported and imported by child
+	// processes under different TZ; header times around daylight-saving changes (Europe 2021-10-31, US 2021-11-07)
+	zoneSets := [][3]string{
+		{"UTC", "Europe/Warsaw", "Asia/Kolkata"}, {"Europe/Warsaw", "UTC", "America/New_York"}, {"UTC", "America/New_York", "UTC"},
+		{"Asia/Kolkata", "Europe/Warsaw", "UTC"}, {"America/New_York", "Asia/Kolkata", "Europe/Warsaw"}, {"UTC", "UTC", "UTC"},
+		{"Europe/Warsaw", "Europe/Warsaw", "Europe/Warsaw"}, {"UTC", "Asia/Kolkata", "America/New_York"},
+	}
+	nz := c.Pick(6, len(zoneSets)*3)
+	for zi := 0; zi < nz; zi++ {
+		zs := zoneSets[zi%len(zoneSets)]
+		base := []int64{1635634800, 1636264800, 1616893200, 1231006505}[(zi/2)%4]
+		src := []string{fmt.Sprintf("tz %s %s %s", zs[0], zs[1], zs[2])}
+		n := 4 + r.Intn(12)
+		for i := 0; i < n; i++ {
+			f := h.randF(1)
+			f.ts = base - 3*1800 + int64(i)*1800
+			src = append(src, "a "+f.String())
+			if i == n/2 {
+				g := h.randF(2)
+				g.ts = base + 900
+				src = append(src, "f 0 "+g.String())
+			}
+		}
+		c.Count("source:zones")
+		tails := [][]string{{"i"}, {"i", "i"}, {fmt.Sprintf("p %d g", n/2), "i"}, {fmt.Sprintf("p %d b", n/2), "i", "i"}, {fmt.Sprintf("kset %d 4 abc", n/2), "i"}}
+		for ti, t := range tails {
+			if ti > 0 && zi%len(tails) != ti && !c.Thorough() {
+				continue
+			}
+			if err := h.run("zones:"+zs[0]+">"+zs[1]+">"+zs[2], src, t...); err != nil {
+				return err
+			}
+		}
+	}
+
 	// 2. a long chain crossing the batch boundary of the import (inserted directly)
 	if b >= 1 && b <= 2000 {
 		nLong := c.Pick(1, 3)
@@ -379,14 +423,16 @@ func (h *c17H) generate() error {
 				return err
 			}
 			c.Count("source:long-" + kind)
-			bad := func(row int) string { return fmt.Sprintf("kset %d %d %s", row, r.Intn(5), []string{"abc", "1.5", "-9999999999999999999999"}[r.Intn(3)]) }
+			bad := func(row int) string {
+				return fmt.Sprintf("kset %d %d %s", row, r.Intn(5), []string{"abc", "1.5", "-9999999999999999999999"}[r.Intn(3)])
+			}
 			long := [][]string{
 				{"i"}, {"i", "i"},
-				{bad(b + 100), "i", "i"},        // the probe of the design: a bad row in the second batch
+				{bad(b + 100), "i", "i"},         // the probe of the design: a bad row in the second batch
 				{bad(b + 100), "i", "kfix", "i"}, // ... and the operator repairs the file
-				{bad(b), "i", "i"},              // first row of the second batch
-				{bad(b - 1), "i", "i"},          // last row of the first batch: nothing committed
-				{bad(2*b + 3), "i", "i", "i"},   // two batches committed
+				{bad(b), "i", "i"},               // first row of the second batch
+				{bad(b - 1), "i", "i"},           // last row of the first batch: nothing committed
+				{bad(2*b + 3), "i", "i", "i"},    // two batches committed
 				{bad(en - 1), "i", "i"},
 				{bad(0), "i", "i"},
 				{fmt.Sprintf("kdelcol %d 2", b+1), "i", "i"},
@@ -424,6 +470,7 @@ func (h *c17H) generate() error {
 					{"ts-nonnumeric", set(4, "1e9")}, {"ts-range", set(4, "9223372036854775808")}, {"ts-empty", set(4, "~")},
 					{"column-missing", func(row int) string { return fmt.Sprintf("kdelcol %d %d", row, r.Intn(5)) }},
 					{"column-extra", func(row int) string { return fmt.Sprintf("kaddcol %d 0", row) }},
+					{"nonce-hex-literal", set(2, "0x17")}, {"bits-digit-separators", set(3, "4_294_967_295")}, {"version-hex-literal", set(0, "0x1")},
 					{"csv-comment-char", func(row int) string { return fmt.Sprintf("kraw %d 0 hash", row) }},
 					{"csv-open-quote", func(row int) string { return fmt.Sprintf("kraw %d %d qlead", row, r.Intn(5)) }},
 					{"csv-commas-only-line", func(row int) string { return fmt.Sprintf("kraw %d 0 commas", row) }},
